@@ -183,8 +183,11 @@ func secretScalars(th bool) []mc.Val {
 	if th {
 		step = 2
 	}
-	for i := 0; i < len(glv); i += step {
-		add("glv: "+glv[i].Label, glv[i].V)
+	for i := 0; i < len(glv); i++ {
+		// every rounding-bit / quotient-boundary scalar (an intermediate carry decides), a sample of the rest
+		if i%step == 0 || strings.HasPrefix(glv[i].Label, "rounding") || strings.HasPrefix(glv[i].Label, "quotient") || strings.HasPrefix(glv[i].Label, "GLV corner") {
+			add("glv: "+glv[i].Label, glv[i].V)
+		}
 	}
 	for i := 0; i < 12; i++ {
 		add(fmt.Sprintf("pseudo-random #%d", i), ref.OS2IP(ref.TaggedHash("verif/C17", []byte{byte(i)})))
@@ -450,6 +453,26 @@ func main() {
 			R.Sample(o.name, map[string]any{"operation": o.name, "config": cfg, "secrets": len(o.secrets), "events_per_trace": base.events, "blocks": base.nb, "function_entries": base.nf, "index_events": base.ni, "distinct_trace_signatures": len(sigs)})
 		}
 	}
+	// memory-access pattern of the table lookups, probed with page protection: works for the SSE2 assembly too
+	for _, proj := range []bool{false, true} {
+		name := "lookupAffinePoint"
+		if proj {
+			name = "lookupProjectivePoint"
+		}
+		m, n := lib.ProbeLookupAccess(proj)
+		R.T(int64(n))
+		switch {
+		case strings.HasPrefix(m, "SKIP"):
+			R.SkipHook("address-based lookup hooks / mmap: " + m)
+		case m != "":
+			R.Fail("ct/lookup access pattern/"+name+"/"+cfg, "probe", map[string]any{"routine": name, "config": cfg, "mismatch": m}, func() bool { mm, _ := lib.ProbeLookupAccess(proj); return mm != "" })
+		default:
+			R.Class(cfg+"/lookup routines that read every table entry for every index (page-protection probe)", 1)
+			R.States(int64(n))
+			R.NTs(int64(n))
+		}
+	}
+	R.Sample("lookup access probe", map[string]any{"config": cfg, "method": "table placed so that entries e..14 lie in a PROT_NONE page; for every e in 0..14 and every index 0..15 the lookup must fault, i.e. it reads entry e whatever the index; e = 15 is the no-fault control"})
 	R.Bound("secrets_total", nsec)
 	_ = bytes.Equal
 	R.Expect(cfg + "/operations with exactly one trace signature")
